@@ -357,6 +357,10 @@ def check_inverses(h, w, ph, pw, seed):
             return f"{type(n).__name__}: denormalize(normalize(x)) != x"
         if not torch.allclose(n(d(x.clone())), x, atol=1e-5):
             return f"{type(n).__name__}: normalize(denormalize(x)) != x"
+        # values outside [0, 1] (spectrograms, already normalised tensors): the maps are inverse on all reals, not only on image ranges
+        for wide in (x.clone() * 6 - 3, -x.clone() * 40):
+            if not torch.allclose(d(n(wide.clone())), wide, atol=1e-4) or not torch.allclose(n(d(wide.clone())), wide, atol=1e-4):
+                return f"{type(n).__name__}: normalise / denormalise are not inverse on values outside [0, 1]"
     if not torch.allclose(KDImageNorm(mean=mean, std=std, inplace=False)(x.clone()),
                           (x - torch.tensor(mean).view(3, 1, 1)) / torch.tensor(std).view(3, 1, 1), atol=1e-6):
         return "KDImageNorm.normalize != (x - mean) / std"
